@@ -347,6 +347,7 @@ func selectionCase(run *ev.Run, d api.D2, hosts []hostDef, prio []string, draws 
 
 func main() {
 	run := ev.Start("C19")
+	defer run.Guard()
 	run.Rule("histories: all sequences up to length L over 3 nodes x {set1,set2,delete,malformed,weightless} (exhaustive) plus PRNG histories of length 5-6, each fed event by event to the library's URI handler " +
 		"(directly and through its own update loop); the live set is compared with the reference fold after every prefix and every earlier snapshot is re-read at the end. " +
 		"selection: announcement sets x prioritized-scheme lists, many draws each, eligibility of every draw + Hoeffding bound on frequencies. " +
